@@ -162,7 +162,12 @@ def h_range(sx, cfg):
     mesh, pmin, e = _mesh(sx, df, cfg, n, dims=dims, flip=False)
     f, vals, valid = _field(sx, df, mesh, nv)
     c = e[ax] / n[ax]
-    u, w = sx.real("u"), sx.real("w")
+    if cfg.get("lo_int") is not None:
+        # mixed typing: an integer lower bound with a float upper bound (integer-typed corners keep int arrays in the library)
+        u, w = int(cfg["lo_int"]), sx.real("w")
+        sx.assume(w >= u)
+    else:
+        u, w = sx.real("u"), sx.real("w")
     lo, hi = sx.min(u, w), sx.max(u, w)
     band = 2 * TF * (_mine(sx, e) + abs(u) + abs(w))
     inside = sx.And(lo >= pmin[ax], hi <= pmin[ax] + e[ax])
@@ -451,6 +456,7 @@ def tasks(tier):
     for n, box, ax in ([((4,), [[-1], [1]], 0), ((3, 4), [[0, -5], [3, 5]], 1)] if q else [((4,), [[-1], [1]], 0), ((3, 4), [[0, -5], [3, 5]], 1), ((4, 2, 2), [[2, 0, 0], [0, 1, 3]], 0)]):
         t.append(dict(harness="h_plane", cfg=dict(n=list(n), nvdim=1, axis=ax, how="value", box=box), limits=dict(big, validate=12)))
         t.append(dict(harness="h_range", cfg=dict(n=list(n), nvdim=1, axis=ax, box=box), limits=dict(big, validate=12)))
+        t.append(dict(harness="h_range", cfg=dict(n=list(n), nvdim=1, axis=ax, box=box, lo_int=min(box[0][ax], box[1][ax]) + (1 if len(n) > 1 else 0)), limits=dict(big, validate=12)))
     ranges = [((3,), 1, 0), ((4,), 1, 0), ((3, 2), 2, 0), ((2, 3), 1, 1), ((2, 3, 1), 1, 1)]
     if not q:
         ranges += [((4, 2), 1, 0), ((2, 4), 2, 1), ((3, 2, 2), 1, 0), ((1, 2, 3), 2, 2), ((2, 1, 3, 1), 1, 2)]
